@@ -173,10 +173,10 @@ Section Total.
     all: try (apply np_bind; [apply np_pop_val|]; intros [v st1]; repeat np_step; try apply np_pop_val).
     - (* MkList *) np_auto.
     - (* MkDict *)
-      match goal with |- np (?g (Z.to_nat n) st []) => assert (G : forall k st0 acc, np (g k st0 acc)); [|apply G] end.
-      induction k as [|k IH]; intros st0 acc; [apply np_ret|].
-      apply np_bind; [apply np_pop_val|]. intros [key st1]. destruct key; try apply np_fail.
-      apply np_bind; [apply np_pop_val|]. intros [v st2]. apply IH.
+      match goal with |- np (?g (Z.to_nat n) st [] false) => assert (G : forall k st0 acc bad, np (g k st0 acc bad)); [|apply G] end.
+      induction k as [|k IH]; intros st0 acc bad; [destruct bad; apply np_ret|].
+      apply np_bind; [apply np_pop_val|]. intros [key st1].
+      apply np_bind; [apply np_pop_val|]. intros [v st2]. destruct key; apply IH.
     - (* Access *) np_auto.
     - (* Call *) np_auto.
     - (* Fmt *) apply np_bind; [apply np_pop_n|]. intros [segs st1].
